@@ -2,6 +2,7 @@ package chainsim
 
 import (
 	"fmt"
+	"strings"
 
 	"github.com/bytecodealliance/wasmtime-go"
 	"github.com/meshplus/bitxhub-kit/types"
@@ -41,6 +42,12 @@ const kvWat = `(module
     (call $add (local.get $k) (local.get $v)) (loop $l (br $l)) (i32.const 1))
   (func (export "put2_trap") (param $k i32) (param $v i32) (result i32)
     (call $add (local.get $k) (local.get $v)) (call $set (local.get $k) (local.get $k)) (unreachable))
+  (func (export "put_reuse") (param $k i32) (param $v i32) (result i32)
+    ;; writes the record, then goes on using the buffer the value was passed in (as a contract that frees or
+    ;; recycles its buffers does): the record must keep the value it was given
+    (call $set (local.get $k) (local.get $v)) (i32.store8 (local.get $v) (i32.const 88)) (i32.const 1))
+  (func (export "add_reuse") (param $k i32) (param $v i32) (result i32)
+    (call $add (local.get $k) (local.get $v)) (i32.store8 (local.get $v) (i32.const 89)) (i32.const 1))
   (func (export "read") (param $k i32) (param $v i32) (result i32)
     (drop (call $get (local.get $k))) (i32.const 1)))`
 
@@ -54,7 +61,7 @@ var kvWasm = func() []byte {
 
 // (running out of gas burns the whole block gas limit in the WASM engine, a tenth of a second: rare)
 var kvMethods = []string{"put", "add", "put_trap", "add_trap", "put_spin", "put2_trap", "read", "put", "add", "add_trap", "no_such_method", "put",
-	"add", "add_trap", "put_trap", "add_spin", "put2_trap", "read", "put", "add", "add_trap", "put_trap", "add", "put"}
+	"add", "add_trap", "put_trap", "add_spin", "put2_trap", "read", "put", "add", "add_trap", "put_trap", "add", "put", "put_reuse", "add_reuse", "put_reuse"}
 
 func (s *scn) deployKV() bool {
 	u := s.users[0]
@@ -83,6 +90,57 @@ func (s *scn) applyKV(st CStep) {
 	key := fmt.Sprintf("rec%d", st.B%3)
 	val := fmt.Sprintf("v%d", s.kvSeq)
 	tx := s.b.xvmInvoke(sender, s.kvAddr, m, pb.String(key), pb.String(val))
-	s.add(tx, &txMeta{kind: "kv", sender: sender, note: m + "/" + key})
+	s.add(tx, &txMeta{kind: "kv", sender: sender, note: m + "/" + key, kvKey: key, kvVal: val, kvMethod: m})
 	s.res.Count("kv_" + m)
+}
+
+// kvAfterBlock: node-level form of C13 for the records of the storage contract: after every block each record reads
+// back (through the read-write ledger, as the API's storage query does) as the value of the last successful write in
+// execution order; a transaction with a FAILED receipt writes nothing.
+func (s *scn) kvAfterBlock(h uint64, metas []*txMeta, ref *blockResult) {
+	if s.kvAddr == nil || s.inSetup {
+		return
+	}
+	if s.kvModel == nil {
+		s.kvModel = map[string]string{}
+	}
+	for i, mt := range metas {
+		if mt.kind != "kv" || i >= len(ref.Receipts) || ref.Receipts[i].Status != pb.Receipt_SUCCESS {
+			continue
+		}
+		switch mt.kvMethod {
+		case "put", "add", "put_reuse", "add_reuse":
+			s.kvModel[mt.kvKey] = mt.kvVal
+		}
+	}
+	// what the state store holds (the executor persists a block before it announces it) ...
+	stored := map[string]string{}
+	pre := string(s.kvAddr.Bytes())
+	for _, kv := range s.reps[0].stateDump() {
+		if strings.HasPrefix(kv[0], pre) {
+			stored[kv[0][len(pre):]] = kv[1]
+		}
+	}
+	for _, k := range []string{"rec0", "rec1", "rec2"} {
+		want, written := s.kvModel[k]
+		if !written {
+			continue
+		}
+		s.res.Count("probe_kv_record_read_back")
+		got, ok := stored[k]
+		if !ok || got != want {
+			s.vio("C13", "contract-record", "stored-value", "after block %d: record %s of the storage contract is stored as %q (present=%v), the last successful write in execution order wrote %q", h, k, got, ok, want)
+			s.kvModel[k] = got
+			continue
+		}
+		// ... and what the read-write ledger answers (the API's storage query). Not while the in-line API reader of
+		// this replica is active: its queries run on the executor's goroutine up to the end of processExecuteEvent,
+		// concurrently with this one, and the harness must not judge an interleaving it does not control.
+		if s.reps[0].pol.ApiReader > 0 {
+			continue
+		}
+		if ok2, got2 := s.reps[0].lg.GetState(s.kvAddr, []byte(k)); !ok2 || string(got2) != want {
+			s.vio("C13", "contract-record", "value", "after block %d: record %s of the storage contract reads %q (present=%v), the last successful write in execution order wrote %q", h, k, got2, ok2, want)
+		}
+	}
 }
